@@ -26,7 +26,7 @@ import clematis.engine.orchestrator.core as core  # noqa: E402
 import importlib  # noqa: E402
 
 rmod = importlib.import_module("clematis.engine.stages.t3.reflect")
-from clematis.adapters.llm import FixtureLLMAdapter, _prompt_hash  # noqa: E402
+from clematis.adapters.llm import FixtureLLMAdapter, LLMAdapterError, _prompt_hash  # noqa: E402
 
 PROPERTY = "C19"
 LEVEL = "exploration"
@@ -74,19 +74,27 @@ def generate(seed: int, tier: str) -> Dict[str, Any]:
         ops.append({"op": "turn", "agent": ro.choice(agents), "text": E.gen_text(ro), "turn_id": i, "now_ms": E.T0_MS + i * 60_000,
                     "allow": ro.chance(0.75), "plan_flag": ro.chance(0.8), "dry_run": ro.chance(0.15),
                     "cost_ms": ro.choice([0, 0, 1, 49, 50, 51, 7000]),
-                    "fault": ro.weighted([(None, 6), ("reflect", 1), ("index_add", 1), ("index_missing", 1), ("telemetry", 1), ("fixture_missing", 1)]),
-                    "exc": ro.choice(sorted(EXC_TYPES)), "completion": ro.choice(COMPLETIONS)})
+                    "fault": ro.weighted([(None, 6), ("reflect", 1), ("index_add", 1), ("index_missing", 1), ("telemetry", 1), ("fixture_missing", 2), ("fixture_gone", 1), ("fixture_torn", 1)]),
+                    "exc": ro.choice(sorted(EXC_TYPES)), "completion": ro.choice(COMPLETIONS), "prior_read": ro.chance(0.5)})
+    if backend == "llm" and ro.chance(0.5):
+        # the same prompt twice (same agent, turn id and text): answered once, then the record vanishes from the file at the same path
+        src = dict(ro.choice(ops))
+        src.update({"allow": True, "plan_flag": True, "dry_run": False, "fault": None, "cost_ms": 0})
+        again = dict(src, fault=ro.choice(["fixture_missing", "fixture_missing", "fixture_gone", "fixture_torn"]))
+        ops = ops + [src, again]
     return {"world": world, "cfg": raw, "ops": ops, "other_clock": {"profile": "wallonly", "offset_days": r.choice([1, 400, -400])}}
 
 
-class _AutoFixture(FixtureLLMAdapter):
-    """The real fixture adapter; the completion for the prompt that actually arrives is registered on the fly."""
-    completion: Optional[str] = None
+class _Probe(FixtureLLMAdapter):
+    """Learns the prompt the engine is about to send (the fixture file is keyed by its hash), then declines to answer."""
+    seen: Dict[str, str] = {}
+
+    def __init__(self, path):  # the probe never reads the file
+        self._map = {}
 
     def generate(self, prompt, max_tokens, temperature):
-        if _AutoFixture.completion is not None:
-            self._map[_prompt_hash(prompt)] = _AutoFixture.completion
-        return super().generate(prompt, max_tokens, temperature)
+        _Probe.seen["prompt"] = prompt
+        raise LLMAdapterError("probe")
 
 
 def _lines(path: str) -> List[Dict[str, Any]]:
@@ -120,11 +128,56 @@ def _run(program: Dict[str, Any], clock: SimClock, stats: Optional[Dict[str, int
             calls = {"reflect": 0}
             cur: Dict[str, Any] = {}
 
+            fixture_records: Dict[str, str] = {}
+
+            def write_fixture_file(bundle, cfg_root, embedder):
+                """The fixture file is the LLM peer's storage: the REAL FixtureLLMAdapter reads it from disk on every
+                reflection.  A probe pass learns the prompt; the file at the same path is then rewritten with (or,
+                for the fault kinds, without) the record, keeping the records of earlier turns."""
+                _Probe.seen.clear()
+                rmod.FixtureLLMAdapter = _Probe
+                try:
+                    real_reflect(bundle, cfg_root, embedder=None)
+                except Exception:  # noqa: BLE001
+                    pass
+                finally:
+                    rmod.FixtureLLMAdapter = saved_fixture
+                prompt = _Probe.seen.get("prompt")
+                if prompt is None:
+                    return
+                h = _prompt_hash(prompt)
+                fault = cur.get("fault")
+                if fault in ("fixture_missing", "fixture_torn") and cur.get("prior_read"):
+                    # history on the peer's storage: the record WAS there a moment ago and another reader in this process
+                    # (planner, an earlier reflection) parsed the file then; now it is rewritten at the same path
+                    with open(fx, "w", encoding="utf-8") as fh:
+                        for k2, v2 in sorted(dict(fixture_records, **{h: cur.get("completion", "x") or "stale"}).items()):
+                            fh.write(json.dumps({"prompt_hash": k2, "completion": v2}, ensure_ascii=False) + "\n")
+                    try:
+                        saved_fixture(fx)
+                    except Exception:  # noqa: BLE001
+                        pass
+                if fault == "fixture_missing":
+                    fixture_records.pop(h, None)
+                else:
+                    fixture_records[h] = cur.get("completion", "x")
+                if fault == "fixture_gone":
+                    if os.path.exists(fx):
+                        os.unlink(fx)
+                    return
+                with open(fx, "w", encoding="utf-8") as fh:
+                    for k2 in sorted(fixture_records):
+                        fh.write(json.dumps({"prompt_hash": k2, "completion": fixture_records[k2]}, ensure_ascii=False) + "\n")
+                    if fault == "fixture_torn":
+                        fh.write('{"prompt_hash": "' + h[:10])
+
             def reflect_wrapper(bundle, cfg_root, embedder=None):
                 calls["reflect"] += 1
                 clock.advance(int(cur.get("cost_ms", 0)) * 1_000_000)
                 if cur.get("fault") == "reflect":
                     raise EXC_TYPES[cur["exc"]]()
+                if str((((cfg_root.get("t3") or {}).get("reflection")) or {}).get("backend", "")) == "llm":
+                    write_fixture_file(bundle, cfg_root, embedder)
                 return real_reflect(bundle, cfg_root, embedder=embedder)
 
             def log_wrapper(*a, **k):
@@ -132,7 +185,6 @@ def _run(program: Dict[str, Any], clock: SimClock, stats: Optional[Dict[str, int
                     raise EXC_TYPES[cur["exc"]]()
                 return real_log(*a, **k)
 
-            rmod.FixtureLLMAdapter = _AutoFixture
             rmod.reflect = reflect_wrapper
             core.log_t3_reflection = log_wrapper
             try:
@@ -143,8 +195,8 @@ def _run(program: Dict[str, Any], clock: SimClock, stats: Optional[Dict[str, int
                     cfg_now = run.cfg
                     pre = copy.deepcopy(st) if do_twin else None
                     cur.clear()
-                    cur.update({"cost_ms": op.get("cost_ms", 0), "fault": op.get("fault"), "exc": op.get("exc", "ValueError")})
-                    _AutoFixture.completion = None if op.get("fault") == "fixture_missing" else op.get("completion", "x")
+                    cur.update({"cost_ms": op.get("cost_ms", 0), "fault": op.get("fault"), "exc": op.get("exc", "ValueError"), "completion": op.get("completion", "x"),
+                                "prior_read": bool(op.get("prior_read"))})
                     idx = st["memory_index"]
                     if op.get("fault") == "index_add":
                         def boom(ep, _e=op.get("exc", "ValueError")):
@@ -199,7 +251,7 @@ def _run(program: Dict[str, Any], clock: SimClock, stats: Optional[Dict[str, int
                             entries_all.append([oi, e.get("id"), e.get("ts"), e.get("text")])
                         over = wall is not None and int(op.get("cost_ms", 0)) > int(wall)
                         failing = op.get("fault") in ("reflect", "index_add", "index_missing") or over or \
-                            (rcfg.get("backend") == "llm" and (op.get("fault") == "fixture_missing" or not ((cfg_now["t3"].get("llm") or {}).get("fixtures") or {}).get("enabled")))
+                            (rcfg.get("backend") == "llm" and (op.get("fault") in ("fixture_missing", "fixture_gone", "fixture_torn") or op.get("completion", "x").strip() == "" or not ((cfg_now["t3"].get("llm") or {}).get("fixtures") or {}).get("enabled")))
                         if failing and new_eps:
                             bad("wrote-despite-failure", "%s wrote %d entries" % (ctxs, len(new_eps)))
                         if stats is not None:
@@ -241,7 +293,6 @@ def _run(program: Dict[str, Any], clock: SimClock, stats: Optional[Dict[str, int
                 rmod.FixtureLLMAdapter = saved_fixture
                 rmod.reflect = real_reflect
                 core.log_t3_reflection = real_log
-                _AutoFixture.completion = None
     return {"viol": viol, "entries": entries_all}
 
 
